@@ -112,7 +112,9 @@ static void damage_member(Rng &r, json_t *jwk, int sel)
 		json_object_set_new(jwk, m, json_string(""));
 		break;
 	case 7:
-		json_object_set_new(jwk, m, json_string(r.pick(std::vector<std::string>{"!!!!", "A", "AAAAA", "not base64 at all", "AA=A", "\xc3\xa9\xc3\xa9", "AAA*"}).c_str()));
+		// (the text of some members is quoted in the item's error message: printf conversions, very long texts)
+		json_object_set_new(jwk, m, json_string(r.pick(std::vector<std::string>{"!!!!", "A", "AAAAA", "not base64 at all", "AA=A", "\xc3\xa9\xc3\xa9", "AAA*", "%s%s%s%s%s%n", "Ed%n25519", "%x%x%x%x%999999d",
+											std::string(300, 'Z'), std::string(5000, '%'), "P-256%s"}).c_str()));
 		break;
 	case 8: { // wrong length: truncate or extend the base64 text
 		if (old && json_is_string(old)) {
@@ -627,8 +629,13 @@ static void keyring_gen(Rng &r, Plan &p, Tier tier, uint64_t index)
 		else if (k < 19) {
 			s = Step("ERR");
 			s.set("clear", r.chance(1, 2) ? 1 : 0);
-		} else
+		} else if (r.chance(1, 2))
 			s = Step("RECREATE");
+		else {
+			// the application switches crypto provider: items parsed under one are released under the other
+			s = Step("PROVIDER");
+			s.set("to", (int64_t)r.below(2));
+		}
 		s.set("set", (int64_t)r.below(2));
 		s.uid = (uint64_t)i + 1;
 		p.steps.push_back(s);
@@ -857,6 +864,11 @@ static void keyring_exec(Ctx &ctx)
 			rg.set_error = false;
 			op = "RECREATE";
 			ctx.logf("RECREATE set %d", w);
+		} else if (s.op == "PROVIDER") {
+			jwt_set_crypto_ops_t(s.I("to") ? JWT_CRYPTO_OPS_GNUTLS : JWT_CRYPTO_OPS_OPENSSL);
+			ctx.count("fault:provider_switched_between_load_and_release");
+			op = strf("PROVIDER %s", s.I("to") ? "gnutls" : "openssl");
+			ctx.logf("%s", op.c_str());
 		} else
 			continue;
 		ctx.sig(strf("C16|%s|n%zu|e%d", op.c_str(), rg.items.size() > 6 ? (size_t)6 : rg.items.size(), rg.set_error));
